@@ -20,15 +20,19 @@ an NPDU builder for crafted frames (clause 6.2).
 
 Topology (json-able dict):
     {"nets": [netnum, ...], "routers": [[[net index, mac], ...], ...], "stations": [[net index, mac], ...],
-     "label": str, "cyclic": bool}
+     "label": str, "cyclic": bool, "apps": [position of the home port in the router's port list or None, ...] (optional)}
+
+* a router may carry an application ("apps"): that application is a station of the home network at the MAC of
+  the home port -- it is addressed, it receives the broadcasts of that network and the global ones, and it
+  originates and answers like any other station; the router part forwards as before.
 """
 import itertools
 
 # --------------------------------------------------------------------------- shapes
 
 
-def _canon_tree(n_nets, routers, labels):
-    """AHU canonical form of the bipartite tree, networks labelled by labels[i]."""
+def _canon_tree(n_nets, routers, labels, rlabels=None):
+    """AHU canonical form of the bipartite tree, networks labelled by labels[i] (routers by rlabels[j])."""
     adj = {}
     for i in range(n_nets):
         adj[("N", i)] = []
@@ -39,7 +43,7 @@ def _canon_tree(n_nets, routers, labels):
             adj[("N", i)].append(("R", j))
 
     def enc(node, parent):
-        lab = ("N", labels[node[1]]) if node[0] == "N" else ("R", 0)
+        lab = ("N", labels[node[1]]) if node[0] == "N" else ("R", rlabels[node[1]] if rlabels else 0)
         return (lab, tuple(sorted(enc(c, node) for c in adj[node] if c != parent)))
 
     return min(enc(root, None) for root in adj)
@@ -98,6 +102,23 @@ def station_vectors(n_nets, routers, counts=(1, 2), one_big=None):
     return out
 
 
+def app_placements(n_nets, routers, counts):
+    """Where one router of the tree can carry an application: (router, position of its home port), one
+    representative per class of the tree's automorphisms (station counts kept)."""
+    seen = set()
+    out = []
+    for j, ports in enumerate(routers):
+        for h, ni in enumerate(ports):
+            labels = [(c, 0) for c in counts]
+            labels[ni] = (counts[ni], 1)
+            key = _canon_tree(n_nets, routers, labels, [1 if x == j else 0 for x in range(len(routers))])
+            if key in seen:
+                continue
+            seen.add(key)
+            out.append((j, h))
+    return out
+
+
 NETNUM_SETS = (
     (1, 2, 3, 4, 5, 6),
     (700, 2, 65534, 256, 5, 1000),
@@ -105,11 +126,13 @@ NETNUM_SETS = (
 )
 
 
-def concrete(n_nets, routers, counts, seed=0, label="", cyclic=False):
+def concrete(n_nets, routers, counts, seed=0, label="", cyclic=False, apps=None):
     """Number a shape: network numbers, MACs, router port order.  `seed` only rotates these leaf values:
     which number a network gets, where the MAC range starts, in which order a router's ports are bound.
     The same MAC values are reused on every network on purpose (a station of one network has the MAC of
-    a router port or station of another), so ignoring the network number shows."""
+    a router port or station of another), so ignoring the network number shows.
+    apps: {router: position (in the shape's port tuple) of the port its application lives on}: that router is a
+    router *and* a station of that network, at the MAC of that port."""
     numbers = NETNUM_SETS[seed % len(NETNUM_SETS)]
     rot = (seed // len(NETNUM_SETS)) % len(numbers)
     numbers = numbers[rot:] + numbers[:rot]
@@ -131,7 +154,13 @@ def concrete(n_nets, routers, counts, seed=0, label="", cyclic=False):
             r.append([i, next_mac[i]])
             next_mac[i] += 1
         rts.append(r)
-    return {"nets": nets, "routers": rts, "stations": stations, "label": label, "cyclic": bool(cyclic)}
+    topo = {"nets": nets, "routers": rts, "stations": stations, "label": label, "cyclic": bool(cyclic)}
+    if apps:
+        # position of the home port in the (possibly reversed) concrete port list
+        topo["apps"] = [None] * len(rts)
+        for j, h in apps.items():
+            topo["apps"][j] = [p[0] for p in rts[j]].index(routers[j][h])
+    return topo
 
 
 def shape_label(n_nets, routers, counts):
@@ -170,6 +199,16 @@ class Ref(object):
             for (ni, mac) in r:
                 self.owner[(ni, mac)] = ("R", j)
         self.net_index = {num: i for i, num in enumerate(self.nets)}
+        # a router that carries an application is also a station of its home network, at the MAC of that port;
+        # these stations are numbered after the plain ones (the frames they emit still come from a router's MAC)
+        self.n_plain = len(self.stations)
+        self.app_router = {}        # station index -> router
+        self.router_app = {}        # router -> station index
+        for j, h in enumerate(topo.get("apps") or []):
+            if h is not None:
+                self.app_router[len(self.stations)] = j
+                self.router_app[j] = len(self.stations)
+                self.stations.append(self.routers[j][h])
 
     # -- graph
     def routers_on(self, ni):
@@ -282,6 +321,13 @@ class Ref(object):
             tn, tmac = dest[1], None
         p = path[tn]
         rts = via[tn]
+        if kind == "u" and dest[1] in self.app_router and rts and rts[-1] == self.app_router[dest[1]]:
+            # the addressed application lives in the last router of the path: the packet is at home when it
+            # reaches that router (still carrying DNET/DADR), nothing is put on the application's own network
+            for i, ni in enumerate(p[:-1]):
+                out[ni] = {"snet": self.nets[sn] if i else None, "sadr": bytes([smac]) if i else None, "hop": 255 - i,
+                           "dnet": self.nets[tn], "dadr": bytes([tmac]), "mac_dst": self.router_mac(rts[i], ni)}
+            return out
         for i, ni in enumerate(p):
             last = (i == len(p) - 1)
             leg = {"snet": self.nets[sn] if i else None, "sadr": bytes([smac]) if i else None}
